@@ -787,6 +787,10 @@ def _run_sg(case):
     return _early("sg", r)      # class / subgroups() construction or the probing of the spellings raised
 
 
+def _give_up_naming():
+    raise RuntimeError("C07 harness: the spellings of a plain command line do not reach a fixed point")
+
+
 def _run_sg_inner(case):
     from implutil import outcome_of, reset_simple_parsing_state
     tree = case["tree"]
@@ -797,29 +801,49 @@ def _run_sg_inner(case):
     for t in case["toks"]:
         if t["k"] == "choose":
             want[t["dest"]] = t["key"]
-    reset_simple_parsing_state()
-    ok, names = name_config(tree, cls, src, want)
-    toks, skipped = [], 0
-    for t in case["toks"]:
-        if t["k"] == "junk":
-            toks.append(dict(o=t["opt"], v=t["v"], dest=None, k="junk", eq=t["eq"]))
-            continue
-        d = t["dest"]
-        v = t["key"] if t["k"] == "choose" else t["v"]
-        table = names
-        if d not in table and t["k"] in ("foreign", "abbr"):
-            _, table = name_config(tree, cls, src, {**want, **t["via"]})
-        o = _long(table.get(d, []))
-        if o is None:
-            skipped += 1
-            continue
-        if t["k"] == "abbr":
-            o = o[: max(3, len(o) - t["cut"])]
-        if any(r != o and r.startswith(o) and not is_int_leaf(dd) and not _is_sg_dest(tree, dd)
-               for dd, rs in names.items() for r in rs) and o not in [r for rs in names.values() for r in rs]:
-            skipped += 1      # would be read as an abbreviation of a bool / str / float / list option: their token grammar is not C07's
-            continue
-        toks.append(dict(o=o, v=v, dest=d, k=t["k"], eq=t["eq"]))
+    # The spellings are read in the configuration the WHOLE command line selects.  An option meant for another configuration may
+    # happen to be a registered spelling of a subgroup field of this one (then it is simply a choice, possibly changing which
+    # options exist and how they are spelled): the naming is redone until the choices read off the named tokens are the ones
+    # the naming assumed.
+    for _attempt in range(5):
+        reset_simple_parsing_state()
+        ok, names = name_config(tree, cls, src, want)
+        toks, skipped = [], 0
+        for t in case["toks"]:
+            if t["k"] == "junk":
+                toks.append(dict(o=t["opt"], v=t["v"], dest=None, k="junk", eq=t["eq"]))
+                continue
+            d = t["dest"]
+            v = t["key"] if t["k"] == "choose" else t["v"]
+            table = names
+            if d not in table and t["k"] in ("foreign", "abbr"):
+                _, table = name_config(tree, cls, src, {**want, **t["via"]})
+            o = _long(table.get(d, []))
+            if o is None:
+                skipped += 1
+                continue
+            if t["k"] == "abbr":
+                o = o[: max(3, len(o) - t["cut"])]
+            if any(r != o and r.startswith(o) and not is_int_leaf(dd) and not _is_sg_dest(tree, dd)
+                   for dd, rs in names.items() for r in rs) and o not in [r for rs in names.values() for r in rs]:
+                skipped += 1      # would be read as an abbreviation of a bool / str / float / list option: their token grammar is not C07's
+                continue
+            toks.append(dict(o=o, v=v, dest=d, k=t["k"], eq=t["eq"]))
+        inv0 = {o_: d for d, os_ in names.items() for o_ in os_}
+        eff = {}
+        for t in toks:
+            d_eff = inv0.get(t["o"])
+            if d_eff is not None and _is_sg_dest(tree, d_eff):
+                eff[d_eff] = t["v"]
+            elif d_eff is None and t["k"] == "choose":
+                eff[t["dest"]] = t["v"]
+        if eff == want:
+            break
+        want = eff
+    else:
+        # no fixed point (the colliding options keep changing the configuration): keep the plain part of the command line only
+        case = dict(case, toks=[t for t in case["toks"] if t["k"] in ("choose", "set", "junk")])
+        return _run_sg_inner(case) if any(t["k"] in ("foreign", "abbr") for t in toks) else _give_up_naming()
     argv = []
     for t in toks:
         argv += [f"{t['o']}={t['v']}"] if t["eq"] else [t["o"], t["v"]]
